@@ -318,9 +318,19 @@ def handleLn : List String → String
       | some _ => "resolved"
       | none => "unresolved"
     | _ => "no-directive"
+  | ["conflict"] =>
+    -- package m: `//go:linkname f m/lib.impl1`, `//go:linkname f m/lib.impl2`, `//go:linkname g m/lib.impl3`
+    let f : Sym := ⟨"m".toList, "f".toList⟩
+    let g : Sym := ⟨"m".toList, "g".toList⟩
+    let mk := fun (n : String) => (⟨"m/lib".toList, n.toList⟩ : Sym)
+    let r := LinkSet.add ⟨[], []⟩ [⟨f, mk "impl1"⟩, ⟨f, mk "impl2"⟩, ⟨g, mk "impl3"⟩]
+    let shw := fun (ref : Sym) => match findImplementation r.1.byReference ref with
+      | some i => String.ofList i.name
+      | none => "unresolved"
+    s!"f={shw f} g={shw g}"
   | ["split", ext] =>
     match ofHex ext with
-    | some e => let r := splitExt e; s!"{toHexT r.1} {toHexT r.2}"
+    | some e => let r := splitTarget e; s!"{toHexT r.1} {toHexT r.2}"
     | none => "bad-op"
   | _ => "bad-op"
 
